@@ -26,6 +26,7 @@ def gen_seq_case(rng, malformed):
     n = rng.choice([3, 3, 4, 5])
     running = set(range(n))
     suspended = set()
+    nopass = set()         # failed/suspended-and-restarted actors keep their passivation paused: not passivated here
     parent = {}            # child -> parent
     has_child = set()
     nxt = n
@@ -45,7 +46,7 @@ def gen_seq_case(rng, malformed):
                 a = rng.choice(every)
                 if a in suspended:
                     continue
-                if k == "passivate" and (a in parent or a not in running):
+                if k == "passivate" and (a in parent or a not in running or a in nopass):
                     k = "stop"      # only top-level actors carry a passivation strategy in the harness
                 ops.append({"op": k, "a": a})
                 stop_model(a, running, parent, has_child)
@@ -59,20 +60,32 @@ def gen_seq_case(rng, malformed):
             ops.append({"op": "unwatch", "w": w, "a": a})
         elif r < 0.68 and active:
             a = rng.choice(active)
-            ops.append({"op": rng.choice(["stop", "stop", "poison", "passivate"] if a not in parent else ["stop", "poison"]), "a": a})
+            ops.append({"op": rng.choice(["stop", "stop", "poison", "passivate"] if (a not in parent and a not in nopass) else ["stop", "poison"]), "a": a})
             stop_model(a, running, parent, has_child)
-        elif r < 0.78:
-            cand = [a for a in active if a not in has_child and a not in parent]
+        elif r < 0.76:
+            # PID.Restart of a leaf: running (top-level or child) or suspended (then it is not shut down first)
+            cand = [a for a in alive if a not in has_child and (a not in parent or parent[a] in active)]
             if cand:
-                ops.append({"op": "restart", "a": rng.choice(cand)})
-        elif r < 0.85 and active and nxt < n + 3:
+                a = rng.choice(cand)
+                ops.append({"op": "restart", "a": a})
+                if a in suspended:
+                    nopass.add(a)
+                suspended.discard(a)
+        elif r < 0.82:
+            # the actor panics: suspended by the runtime, restarted by its parent (RestartDirective)
+            cand = [a for a in active if a not in has_child and (a not in parent or parent[a] in active)]
+            if cand:
+                a = rng.choice(cand)
+                ops.append({"op": "crash", "a": a})
+                nopass.add(a)
+        elif r < 0.88 and active and nxt < n + 3:
             p = rng.choice(active)
             ops.append({"op": "spawnchild", "w": p, "a": nxt})
             parent[nxt] = p
             has_child.add(p)
             running.add(nxt)
             nxt += 1
-        elif r < 0.93:
+        elif r < 0.95:
             if suspended and rng.random() < 0.5:
                 a = rng.choice(sorted(suspended))
                 ops.append({"op": "reinstate", "a": a})
@@ -217,14 +230,24 @@ def oracle_seq(case, out):
             a = op["a"]
             terminate(a)
             watching[a] = {}
-        elif kind == "restart":
+        elif kind in ("restart", "crash"):
             a = op["a"]
             if a in running:
-                mine = dict(watching.get(a, {}))
-                terminate(a)          # its watchers are told (the restart shuts the actor down first)
-                running.add(a)
-                # it never called UnWatch: by the statement it still watches what it watched
-                watching[a] = {x: True for x in mine}
+                if kind == "crash" or a in suspended:
+                    # a suspended (failed) actor is re-initialised without being shut down: nobody is told, its own
+                    # watches stay registered
+                    suspended.discard(a)
+                else:
+                    mine = dict(watching.get(a, {}))
+                    terminate(a)          # its watchers are told (the restart shuts the actor down first)
+                    running.add(a)
+                    # it never called UnWatch: by the statement it still watches what it watched
+                    watching[a] = {x: True for x in mine}
+                # re-attaching the actor under its parent re-establishes the parent's watch (a parent always
+                # watches its children)
+                for p_, cs in children.items():
+                    if a in cs and p_ in running:
+                        watching[p_][a] = False
         elif kind == "suspend":
             suspended.add(op["a"])
         elif kind == "reinstate":
@@ -292,6 +315,8 @@ def coq_seq_cases(pairs):
                 ops.append("OStop %d" % cid(op["a"]))
             elif k == "restart":
                 ops.append("ORestart %d" % cid(op["a"]))
+            elif k == "crash":
+                ops.append("OCrash %d" % cid(op["a"]))
             elif k == "suspend":
                 ops.append("OSuspend %d" % cid(op["a"]))
             elif k == "reinstate":
@@ -398,7 +423,7 @@ def fmt_ops(ops, limit=30):
             return "%d.%s(%d)" % (op["w"], "Watch" if k == "watch" else "UnWatch", op["a"])
         if k == "spawnchild":
             return "%d.SpawnChild(%d)" % (op["w"], op["a"])
-        return "%s(%d)" % ({"stop": "Shutdown", "poison": "PoisonPill", "passivate": "passivate", "restart": "Restart", "suspend": "suspend", "reinstate": "reinstate"}[k], op["a"])
+        return "%s(%d)" % ({"stop": "Shutdown", "poison": "PoisonPill", "passivate": "passivate", "restart": "Restart", "crash": "panic+supervisor-restart", "suspend": "suspend", "reinstate": "reinstate"}[k], op["a"])
     return "; ".join(f(o) for o in ops[:limit]) + (" ..." if len(ops) > limit else "")
 
 
@@ -429,13 +454,25 @@ def run(ctx):
         c["id"] = i
         c["origin"] = "malformed" if malformed else "structured"
         tree_cases.append(c)
+    busy_cases = []
+    for kind, caps in (("default", [0]), ("segmented", [0]), ("nbbounded", [2, 4, 8, 16])):
+        for cap in caps:
+            for fill in sorted({0, 1, max(1, cap // 2), cap, 3 * cap + 5} if cap else {0, 3, 40}):
+                busy_cases.append({"kind": kind, "cap": cap, "fill": fill, "path": rng.choice(["shutdown", "poison", "passivate"])})
+    if ctx.thorough:
+        busy_cases = busy_cases * 4
+    for i, c in enumerate(busy_cases):
+        c["id"] = i
+    with open(os.path.join(ctx.work, "c10_busy_in.jsonl"), "w") as f:
+        for c in busy_cases:
+            f.write(json.dumps(c) + "\n")
     with open(os.path.join(ctx.work, "c10_in.jsonl"), "w") as f:
         for c in seq_cases:
             f.write(json.dumps({"id": c["id"], "n": c["n"], "ops": c["ops"]}) + "\n")
     with open(os.path.join(ctx.work, "c10_tree_in.jsonl"), "w") as f:
         for c in tree_cases:
             f.write(json.dumps({"id": c["id"], "k": c["k"], "ops": c["ops"]}) + "\n")
-    for fn in ("c10_out.jsonl", "c10_tree_out.jsonl", "c10_race_out.jsonl"):
+    for fn in ("c10_out.jsonl", "c10_tree_out.jsonl", "c10_race_out.jsonl", "c10_busy_out.jsonl"):
         p = os.path.join(ctx.work, fn)
         if os.path.exists(p):
             os.remove(p)
@@ -446,7 +483,10 @@ def run(ctx):
     souts = read_jsonl(os.path.join(ctx.work, "c10_out.jsonl"))
     touts = read_jsonl(os.path.join(ctx.work, "c10_tree_out.jsonl"))
     routs = read_jsonl(os.path.join(ctx.work, "c10_race_out.jsonl"))
-    any_hung = any(o.get("hung") for o in souts) or any(r.get("err", "").startswith("hung") for r in routs)
+    bouts = read_jsonl(os.path.join(ctx.work, "c10_busy_out.jsonl"))
+    any_hung = any(o.get("hung") for o in souts) or any(r.get("err", "").startswith("hung") for r in routs) or any(b.get("hung") for b in bouts)
+    if not any_hung and len(bouts) != len(busy_cases):
+        ctx.tie_broken("go-harness busy-watcher cases incomplete (TestVerifC10Busy)", out)
     if (rc != 0 and not any_hung) or len(souts) != len(seq_cases) or len(touts) != len(tree_cases) or not routs:
         ctx.tie_broken("go-harness actor death watch (TestVerifC10*)", out)
     sby = {o["id"]: o for o in souts}
@@ -526,6 +566,37 @@ def run(ctx):
                               {"driver": "go/inpkg/actor/zz_verif_C10_test.go TestVerifC10Race", "round": r,
                                "classes": "pre/pretwice/rewatch: Watch completed before the stop; unw/never: UnWatch completed before / never watched; race*/flap: concurrent with the stop"})
 
+    # ---- oracle on the busy watchers: a slow watcher with a backlog (even a full bounded mailbox) is a running watcher
+    bby = {b["id"]: b for b in bouts}
+    busy_hist = {}
+    late = 0
+    for c in busy_cases:
+        b = bby.get(c["id"])
+        if b is None:
+            continue
+        desc = "watcher with a %s mailbox%s, parked inside Receive with %d user messages sent to it, watched actor stopped by %s" % (
+            c["kind"], (" of capacity %d" % c["cap"]) if c["cap"] else "", c["fill"], c["path"])
+        if b.get("hung"):
+            ctx.violation("watch:operation-never-returns", "%s: %s" % (desc, b.get("hung_how", "")), {"driver": "TestVerifC10Busy", "case": c, "observed": b})
+            continue
+        if b.get("err"):
+            ctx.tie_broken("go-harness busy-watcher case did not complete", {"case": c, "err": b["err"]})
+            continue
+        busy_hist.setdefault(c["kind"], {}).setdefault(str(b["count"]), 0)
+        busy_hist[c["kind"]][str(b["count"])] += 1
+        for who, n in (("the busy watcher", b["count"]), ("the idle watcher next to it", b["plain"])):
+            if n != 1 and reported.get("busy", 0) < 3:
+                reported["busy"] = reported.get("busy", 0) + 1
+                ctx.violation("watch:missing-terminated" if n == 0 else "watch:duplicate-terminated",
+                              "%s: %s (running, never unwatched) received %d Terminated; it handled %d of the queued messages afterwards" % (desc, who, n, b["accepted"]),
+                              {"driver": "go/inpkg/actor/zz_verif_C10_test.go TestVerifC10Busy", "case": c, "observed": b})
+        # Terminated travels on the watcher's system mailbox: it is handled before the queued user messages
+        if b["count"] == 1 and b["log"] and b["log"][0] != "T":
+            late += 1
+    if late:
+        ctx.tie_broken("Terminated is no longer handled ahead of the watcher's queued user messages (system mailbox)",
+                       {"cases": late, "note": "modelled: freeWatchers' Tell puts Terminated on the watcher's unbounded system mailbox, which the dispatcher drains first"})
+
     # ---- the Coq model on the same runs
     mism = None
     ok_m, out_m = ctx.coq_build(["theories/C10/Model.vo"])
@@ -576,12 +647,12 @@ def run(ctx):
         for op in c["ops"]:
             thist[op["op"]] = thist.get(op["op"], 0) + 1
     ctx.coverage.update({
-        "evaluations": sum(upto for _, _, upto in seq_pairs) + sum(len(c["ops"]) for c, _ in tree_pairs) + sum(len(r.get("watchers", [])) for r in routs),
+        "evaluations": sum(upto for _, _, upto in seq_pairs) + sum(len(c["ops"]) for c, _ in tree_pairs) + sum(len(r.get("watchers", [])) for r in routs) + len(bouts),
         "sequence_cases": len(seq_pairs), "tree_cases": len(tree_pairs), "race_rounds": len(routs),
         "distinct_nontrivial": len(nontriv),
         "rule": "sequence case = 3..5 real actors (+ up to 3 children) and 5..26 operations, observed after every operation; non-trivial = contains Watch and UnWatch and at least two Terminated were delivered; distinct by operation list",
         "op_histogram": ophist, "tree_op_histogram": thist, "terminated_messages_observed": n_term,
-        "race_terminated_count_by_class": race_hist, "restart_reattach_races_skipped": restart_races,
+        "race_terminated_count_by_class": race_hist, "busy_watcher_cases": len(bouts), "busy_watcher_terminated_count_by_mailbox": busy_hist, "restart_reattach_races_skipped": restart_races,
         "model_vs_implementation_mismatches": {"sequences": mism[0] if mism else None, "tree": mism[1] if mism else None},
         "samples": [{"ops": fmt_ops(c["ops"], 12)} for c, _, _ in seq_pairs[:3]] + [{"tree_ops": c["ops"][:8]} for c, _ in tree_pairs[:1]],
         "theorems": ["C10_at_most_one", "C10_only_snapshot_members_told", "C10_not_registered_at_snapshot_never_told", "C10_none_after_completed_unwatch",
